@@ -176,6 +176,11 @@ class Inliner:
         else:
             env_ty = (cl[1].get("ty") or "") if len(cl) > 1 else ""
             a0 = args[0]
+            caps = _closure_captures(blocks, a0)
+            if caps and any(c is not None for c in caps):
+                for blk in cb:
+                    _rewrite_captured(blk["stmts"], lb + 1, env_ty.startswith("&"), caps)
+                    _rewrite_captured({k: v for k, v in blk["term"].items() if k != "callee"}, lb + 1, env_ty.startswith("&"), caps)
             if env_ty.startswith("&") and a0["k"] in ("copy", "move") and not _operand_is_ref(locals_, a0):
                 # an Fn / FnMut closure body takes `&self`; called through FnOnce::call_once it is handed the value
                 rv0 = {"k": "ref", "mut": env_ty.startswith("&mut"), "fake": False, "place": copy.deepcopy(a0["place"])}
@@ -381,6 +386,85 @@ def _operand_is_ref(locals_, op):
     return not p["p"] and (locals_[p["l"]].get("ty") or "").startswith("&")
 
 
+def _single_def(blocks, l):
+    defs = []
+    for b in blocks:
+        for st in b["stmts"]:
+            if st["k"] == "assign" and st["dst"]["l"] == l and not st["dst"]["p"]:
+                defs.append(st["rv"])
+        t = b["term"]
+        if t["k"] == "call" and t["dest"]["l"] == l and not t["dest"]["p"]:
+            defs.append(None)
+    return defs[0] if len(defs) == 1 else None
+
+
+def _closure_captures(blocks, op, depth=0):
+    """what the closure value in `op` captured: a list with, per upvar, ('ref', place) for a borrow of a local place,
+    ('val', place) for a moved local place, or None - following plain moves of locals assigned once"""
+    if op["k"] not in ("copy", "move") or op["place"]["p"] or depth > 8:
+        return None
+    rv = _single_def(blocks, op["place"]["l"])
+    if rv is None:
+        return None
+    if rv["k"] == "use":
+        return _closure_captures(blocks, rv["op"], depth + 1)
+    if rv["k"] == "ref" and not rv["place"]["p"]:
+        return _closure_captures(blocks, {"k": "copy", "place": rv["place"]}, depth + 1)
+    if rv["k"] != "aggr" or rv.get("kind") != "closure":
+        return None
+    out = []
+    for o in rv.get("ops", []):
+        cap = None
+        if o["k"] in ("copy", "move") and not o["place"]["p"]:
+            d = _single_def(blocks, o["place"]["l"])
+            if d is not None and d["k"] == "ref" and not any(e and e[0] == "deref" for e in d["place"]["p"]):
+                cap = ("ref", copy.deepcopy(d["place"]), bool(d.get("mut")))
+            elif d is None and o["k"] == "move":
+                cap = None
+        if cap is None and o["k"] == "move" and not any(e and e[0] in ("deref", "index") for e in o["place"]["p"]) and False:
+            cap = ("val", copy.deepcopy(o["place"]))
+        out.append(cap)
+    return out
+
+
+def _rewrite_captured(x, env_local, env_by_ref, caps):
+    """inside an inlined closure body: `(*((*env).i))` / `(*(env.i))` of a by-reference capture of place P is P itself, so that
+    the analyses keyed by places (vector lengths, in-place edits) see the captured variable and not an opaque closure field"""
+    if isinstance(x, dict):
+        if "l" in x and "p" in x and isinstance(x["p"], list) and isinstance(x["l"], int):
+            if x["l"] == env_local:
+                p = x["p"]
+                i = 0
+                if env_by_ref:
+                    if not (p and p[0] and p[0][0] == "deref"):
+                        return
+                    i = 1
+                if len(p) > i + 1 and p[i] and p[i][0] == "field" and isinstance(p[i][1], int) and p[i][1] < len(caps) \
+                        and caps[p[i][1]] is not None and caps[p[i][1]][0] == "ref" and p[i + 1] and p[i + 1][0] == "deref":
+                    P = caps[p[i][1]][1]
+                    x["l"] = P["l"]
+                    x["p"] = copy.deepcopy(P["p"]) + p[i + 2:]
+            return
+        if x.get("k") == "assign" and isinstance(x.get("rv"), dict) and x["rv"].get("k") == "use" \
+                and x["rv"]["op"].get("k") in ("copy", "move") and x["rv"]["op"]["place"]["l"] == env_local:
+            # `_t = copy (env.i)`: the captured reference itself, copied out before it is used - a fresh borrow of P
+            p = x["rv"]["op"]["place"]["p"]
+            i = 1 if env_by_ref else 0
+            if (not env_by_ref or (p and p[0] and p[0][0] == "deref")) and len(p) == i + 1 and p[i] and p[i][0] == "field" \
+                    and isinstance(p[i][1], int) and p[i][1] < len(caps) and caps[p[i][1]] is not None and caps[p[i][1]][0] == "ref":
+                c = caps[p[i][1]]
+                x["rv"] = {"k": "ref", "mut": c[2], "fake": False, "place": copy.deepcopy(c[1])}
+                _rewrite_captured(x["dst"], env_local, env_by_ref, caps)
+                return
+        for k, v in x.items():
+            if k in ("callee", "fn"):
+                continue
+            _rewrite_captured(v, env_local, env_by_ref, caps)
+    elif isinstance(x, list):
+        for v in x:
+            _rewrite_captured(v, env_local, env_by_ref, caps)
+
+
 def _closure_of_operand(blocks, op, depth=0):
     """key of the closure whose value the operand holds, following plain moves / borrows of locals assigned once"""
     if op["k"] not in ("copy", "move") or op["place"]["p"] or depth > 8:
@@ -436,6 +520,39 @@ def inline_program(prog):
                     _count_fnrefs(a, refs)
     prog.fully_inlined = {k for k, n in inl.inlined_sites.items()
                           if n > 0 and not inl.kept_sites.get(k) and not refs.get(k) and prog.fns[k].kind != "Closure"}
+    # closures built and called in place (the desugared `cond.then(|| ..)`, a local `let emit = |..| ..;` called directly): every
+    # call was expanded where the closure was made and the value is handed to nobody else - analysed in the caller's context too
+    for k, n in inl.inlined_sites.items():
+        f = prog.fns[k]
+        if f.kind != "Closure" or n <= 0 or inl.kept_sites.get(k) or not f.closure_of or f.closure_of not in prog.fns:
+            continue
+        creator = prog.fns[f.closure_of]
+        holders = set()
+        for b in creator.blocks:
+            for st in b["stmts"]:
+                if st["k"] == "assign" and st["rv"]["k"] == "aggr" and st["rv"].get("kind") == "closure" and st["rv"].get("closure") == k \
+                        and not st["dst"]["p"]:
+                    holders.add(st["dst"]["l"])
+        grew = True
+        while grew:
+            grew = False
+            for b in creator.blocks:
+                for st in b["stmts"]:
+                    if st["k"] == "assign" and not st["dst"]["p"] and st["dst"]["l"] not in holders:
+                        rv = st["rv"]
+                        src = rv["op"]["place"] if rv["k"] == "use" and rv["op"].get("k") in ("copy", "move") else (rv["place"] if rv["k"] == "ref" else None)
+                        if src is not None and src["l"] in holders:
+                            holders.add(st["dst"]["l"])
+                            grew = True
+        escapes = False
+        for b in creator.blocks:
+            t = b["term"]
+            if t["k"] == "call":
+                for a in t["args"]:
+                    if a.get("k") in ("copy", "move") and a["place"]["l"] in holders:
+                        escapes = True
+        if holders and not escapes:
+            prog.fully_inlined.add(k)
     prog.inline_stats = {"functions_changed": changed, "sites": dict(inl.inlined_sites), "kept": dict(inl.kept_sites)}
     return prog.inline_stats
 
